@@ -51,8 +51,10 @@ class Gen:
             return "len(xs)"
         if r < 0.88:
             return "d.get(%s, %s)" % (self.iexpr(depth + 1), self.const())
-        if r < 0.93:
+        if r < 0.91:
             return "pf(%s)" % self.iexpr(depth + 1)
+        if r < 0.94:   # and / or as a value
+            return "(%s %s %s)" % (R.choice([self.iexpr(depth + 1), "(not %s)" % self.iexpr(depth + 1), "(%s)" % self.cond(depth + 1)]), R.choice(["and", "or"]), self.iexpr(depth + 1))
         return "(%s if %s else %s)" % (self.iexpr(depth + 1), self.cond(depth + 1), self.iexpr(depth + 1))
 
     def cond(self, depth=0):
